@@ -62,6 +62,9 @@ type RecAgent struct {
 	// Default is used when Next was consumed (streams with many requests).
 	Default Script
 	sticky  bool
+	// Delay, when set, is slept inside every call whose operation name it returns a duration for (a
+	// served agent that is slow: a token waiting for a touch).
+	Delay func(op string) time.Duration
 	// kept are the key objects handed to add-type calls, as a served agent that stores them would
 	// keep them (the shim agent does), with their encoding at the time of the call.
 	kept []keptKey
@@ -135,6 +138,11 @@ func (r *RecAgent) Take() []Call {
 }
 
 func (r *RecAgent) rec(c Call) Script {
+	if r.Delay != nil {
+		if d := r.Delay(c.Op); d > 0 {
+			time.Sleep(d)
+		}
+	}
 	r.mu.Lock()
 	defer r.mu.Unlock()
 	r.Calls = append(r.Calls, c)
